@@ -20,7 +20,7 @@ func init() {
 	property("C18",
 		"Static conformance of the no-crash / termination / error-location mechanisms: (a) the only reachable panic is the invalid-UTF-8 panic in the lexer and its guard implies an invalid encoding (RuneError with width 1); no unchecked type assertion, no integer division, log.Fatal only in main; (b) every token loop of the parser consumes a token on every path of an iteration and cannot continue at exhausted input (abstract evaluation with every window token = EOF, callee summaries 'errors at EOF'); every lexer loop reads a character per iteration and its guard is false at end of input; other loops are ranges or bounded counters; (c) every index/slice expression is discharged by a dominating comparison (range key, i < len, len > 0, i == len-1, next = i+1 < len) or by a reviewed exemption naming one function and operand; map updates target maps created by the same component; (d) every error returned by a repo function is returned or tested, and the failure branch returns a non-nil error (except the two environment callees whose failure is by design only logged); (e) error ranges are ordered (start token is the current or an earlier captured token) and no error is built from a synthesised or possibly unassigned token; (f) the environment-error flag only ever enables an error return or a log line, and lint construction equals normal construction with the flag off. NOT decided: stack depth for pathologically nested input, the wall-clock bound, FormatText's string-offset loop.",
 		[]string{"isLetter(0) = unicode.IsDigit(0) = isHexDigit(0) = false", "once the lexer has returned EOF it returns EOF forever (readChar at end of input leaves ch = 0 and changes no position)", "exemptions listed in /verif/exemptions.json (each names one function and operand with a reason)", "configuration values (command_config.json) are outside the property's quantifier"},
-		"C18.a", "C18.b", "C18.c", "C18.d", "C18.e", "C18.f", "C18.g", "C18.h", "C16.c", "C12.a", "C12.b", "C01.c", "C01.d")
+		"C18.a", "C18.b", "C18.c", "C18.d", "C18.e", "C18.f", "C18.g", "C18.h", "C16.c", "C12.a", "C12.b", "C01.c", "C01.d", "C19.b")
 
 	register(&Rule{ID: "C18.a", Doc: "no reachable crash construct except the guarded invalid-UTF-8 panic", Floor: 4, Run: c18a})
 	register(&Rule{ID: "C18.b", Doc: "loops terminate: progress on every path, no continuation at exhausted input", Floor: 30, Run: c18b})
@@ -188,9 +188,40 @@ func (e *eofEval) decide(fn *ssa.Function, cond ssa.Value, lexer bool) int {
 				res = 0
 			}
 		}
-		if strings.HasPrefix(t, "lexer.isLetter(") || strings.HasPrefix(t, "unicode.IsDigit(") || strings.HasPrefix(t, "lexer.isHexDigit(") {
+		if strings.HasPrefix(t, "unicode.IsDigit(") || strings.HasPrefix(t, "unicode.IsLetter(") || strings.HasPrefix(t, "unicode.IsSpace(") {
 			if strings.Contains(t, "$0.ch") {
-				res = 0
+				res = 0 // U+0000 is in none of these classes
+			}
+		}
+		// a condition the lexer asks of itself (`l.atLineComment()`): its definition with the current
+		// and the next character 0 (C19.b: peekChar returns 0 at end of input)
+		if m := recvCallRe.FindStringSubmatch(t); m != nil && m[0] == t && m[1] == "lexer" {
+			if g := e.c.W.Method("lexer", m[2], m[3]); g != nil {
+				if sum := e.c.PC(g).boolSummaryAny(g); sum != nil {
+					var cs []conj
+					for _, cj := range sum.pos {
+						var n conj
+						for _, l := range cj {
+							l = regexpMust(`\$0\.ch(![A-Za-z0-9@_]+)?`).ReplaceAllString(l, "$$0")
+							l = regexpMust(`\(\*lexer\.Lexer\)\.peekChar\(\$0\)@[A-Za-z0-9]+`).ReplaceAllString(l, "$$0")
+							n = append(n, l)
+						}
+						cs = append(cs, n)
+					}
+					if v := dnfAtZero(cs); v >= 0 {
+						res = v
+					}
+				}
+			}
+		}
+		// a predicate of the lexer applied to the current character: its definition at the value 0
+		if m := opaqueAtomRe.FindStringSubmatch(t); m != nil && m[1] == "lexer" && strings.HasPrefix(m[3], "$0.ch") && !strings.Contains(m[3], ",") {
+			if g := e.c.W.Func("lexer", m[2]); g != nil && len(g.Params) == 1 {
+				if sum := e.c.PC(g).boolSummaryAny(g); sum != nil {
+					if v := dnfAtZero(sum.pos); v >= 0 {
+						res = v
+					}
+				}
 			}
 		}
 	} else {
@@ -396,6 +427,10 @@ func c18b(c *Ctx) {
 						if g := callee(ci); g != nil && (g == nt || g == ep) {
 							usesWindow = true
 						}
+						// a loop of the lexer that reads characters is a lexer loop, wherever its test is spelled
+						if g := callee(ci); pkg == "lexer" && g != nil && (g == rc || lexConsumers[g]) {
+							usesCh = true
+						}
 					}
 				}
 			}
@@ -450,18 +485,21 @@ func c18b(c *Ctx) {
 						continue
 					}
 					pt := c.T(fn).Term(p)
-					step := false
+					// the counter moves on EVERY way round the loop (one way that leaves it where it
+					// was is an endless loop)
+					step, nBack := true, 0
 					for i, e := range p.Edges {
 						if h.Dominates(h.Preds[i]) {
+							nBack++
 							et := c.T(fn).Term(e)
-							if et == pt+"+1" || et == pt+"-1" {
-								step = true
-							}
+							moves := et == pt+"+1" || et == pt+"-1"
 							if ok, min := incOnly(e, p, map[ssa.Value]bool{}); ok && min >= 1 {
-								step = true
+								moves = true
 							}
+							step = step && moves
 						}
 					}
+					step = step && nBack > 0
 					if !step {
 						continue
 					}
@@ -598,15 +636,25 @@ func c18c(c *Ctx) {
 		site := 0
 		instrs(fn, func(in ssa.Instruction) {
 			var x, idx, lo, hi ssa.Value
+			arrLen := int64(-1)
+			inArray := func(t types.Type, index ssa.Value) bool { // a constant index inside a fixed-size array needs no proof
+				at, ok := deref(t).Underlying().(*types.Array)
+				if !ok {
+					return false
+				}
+				arrLen = at.Len()
+				k, isC := intConst(index)
+				return isC && k >= 0 && k < at.Len()
+			}
 			kind := ""
 			switch y := in.(type) {
 			case *ssa.IndexAddr:
-				if _, isPtr := y.X.Type().Underlying().(*types.Pointer); isPtr {
-					return // fixed-size array (varargs / literals)
+				if _, isPtr := y.X.Type().Underlying().(*types.Pointer); isPtr && inArray(y.X.Type(), y.Index) {
+					return // fixed-size array (varargs / literals) at a constant position
 				}
 				x, idx, kind = y.X, y.Index, "index"
 			case *ssa.Index:
-				if _, isArr := y.X.Type().Underlying().(*types.Array); isArr {
+				if inArray(y.X.Type(), y.Index) {
 					return
 				}
 				x, idx, kind = y.X, y.Index, "index"
@@ -623,6 +671,9 @@ func c18c(c *Ctx) {
 			xt := c.term(fn, x)
 			must := c.mustLits(fn, in.Block())
 			lenX := "builtin:len(" + xt + ")"
+			if arrLen >= 0 && kind == "index" {
+				lenX = strconv.FormatInt(arrLen, 10) // the length of an array is a constant
+			}
 			nonEmpty := hasLit(must, "+(0 < "+lenX+")") || hasLit(must, "-("+lenX+" == 0)")
 			var operand, how string
 			ok := false
@@ -680,6 +731,8 @@ func c18c(c *Ctx) {
 					ok, how = true, "len(x) > 0 dominates x[1:]"
 				case lt == "" && ht != "" && hasLit(must, "+("+ht+" < "+lenX+")"):
 					ok, how = true, "i < len(x) dominates x[:i]"
+				case lexerPositionSlice(c, fn, x, lo, hi):
+					ok, how = true, "both bounds are lexer positions, the lower one read earlier: positions never decrease and never exceed len(input) (only readChar moves them: position = old readPosition, readPosition += decoded width — C19.b)"
 				case lt == "" && addK.MatchString(ht) && hasLit(must, "+("+subOne(ht)+" < "+lenX+")"):
 					ok, how = true, "i < len(x) dominates x[:i+1]"
 				case lt == "" && strings.HasPrefix(ht, "strings.Index("+xt+",") && hasLit(must, "-("+ht+" < 0)"):
@@ -801,6 +854,68 @@ func c18c(c *Ctx) {
 func c18d(c *Ctx) {
 	envCallee := map[string]bool{"LoadFontConfig": true, "FormatText": true}
 	n := 0
+	// a pointer that comes back together with an error is nil when the call failed: it is
+	// looked into only where the error is known to be nil
+	nPtr := 0
+	for _, fn := range libraryFuncs(c) {
+		if c.W.PkgShort(fn) == "" {
+			continue
+		}
+		for _, ci := range callsIn(fn) {
+			call, ok := ci.(*ssa.Call)
+			g := callee(ci)
+			if !ok || g == nil || !c.W.InRepo(g) || call.Referrers() == nil {
+				continue
+			}
+			res := g.Signature.Results()
+			if res.Len() < 2 || !isErrorType(res.At(res.Len()-1).Type()) {
+				continue
+			}
+			var errEx *ssa.Extract
+			for _, r := range *call.Referrers() {
+				if ex, isEx := r.(*ssa.Extract); isEx && ex.Index == res.Len()-1 {
+					errEx = ex
+				}
+			}
+			for _, r := range *call.Referrers() {
+				ex, isEx := r.(*ssa.Extract)
+				if !isEx || ex == errEx || ex.Referrers() == nil {
+					continue
+				}
+				if _, isPtr := ex.Type().Underlying().(*types.Pointer); !isPtr {
+					continue
+				}
+				for _, u := range *ex.Referrers() {
+					var at ssa.Instruction
+					switch y := u.(type) {
+					case *ssa.FieldAddr:
+						if y.X == ssa.Value(ex) {
+							at = y
+						}
+					case *ssa.UnOp:
+						if y.Op == token.MUL && y.X == ssa.Value(ex) {
+							at = y
+						}
+					}
+					if at == nil {
+						continue
+					}
+					nPtr++
+					okNil := false
+					if errEx != nil {
+						et := c.term(fn, errEx)
+						must := c.mustLits(fn, at.Block())
+						okNil = hasLit(must, "+("+et+" == nil)") || hasLit(must, "-("+et+" != nil)")
+					}
+					// ... or the pointer itself was tested
+					pt := c.term(fn, ex)
+					okNil = okNil || hasLit(c.mustLits(fn, at.Block()), "-("+pt+" == nil)")
+					c.Check(okNil, fmt.Sprintf("%s/result-used-after-error-test[%s]", c.W.FuncKey(fn), g.Name()), c.W.Pos(at.Pos()), "a pointer result is looked into only after the call's error was tested", "the pointer result of "+g.Name()+" is dereferenced on a path where its error has not been tested: when the call fails the pointer is nil and the compiler crashes instead of reporting the error")
+				}
+			}
+		}
+	}
+	c.Check(nPtr >= 6, "pointer-results/census", "-", fmt.Sprintf("%d dereferences of pointer results of fallible calls", nPtr), fmt.Sprintf("only %d such dereferences found", nPtr))
 	// the format() parameter parser together with its private helpers
 	formatUnit := map[*ssa.Function]bool{}
 	if f := c.Fn("parser.Parser.parseFormatStringOperator"); f != nil {
@@ -1604,11 +1719,24 @@ func unconsumedConds(c *Ctx, fn *ssa.Function, b *ssa.BasicBlock, isCons func(ss
 				continue // everything that continues from p has consumed
 			}
 			eds := pc.edgeDNF(p, x)
-			if isLoopHeader(p) && !loopBody(p)[x] && len(keepLoopExit) == 0 {
-				// the exit test was made in a later iteration: it says nothing at entry (unless
-				// the caller counts every pass through the body as consuming, so that an
-				// unconsumed exit is the exit of the very first test)
-				eds = []conj{{}}
+			if len(keepLoopExit) == 0 {
+				if isLoopHeader(p) && !loopBody(p)[x] {
+					// the exit test was made in a later iteration: it says nothing at entry
+					eds = []conj{{}}
+				}
+			} else {
+				// the caller counts every state change as consuming: on an unconsumed path every
+				// test — also one made at a loop head, which is then the loop's very first test —
+				// reads the state the function was entered with
+				var first []conj
+				for _, e := range eds {
+					var n conj
+					for _, l := range e {
+						n = append(n, stripLoopTags(l))
+					}
+					first = append(first, n)
+				}
+				eds = first
 			}
 			for _, cj := range cond[p] {
 				for _, e := range eds {
@@ -1666,4 +1794,137 @@ func lexerMustConsume(c *Ctx, rc *ssa.Function) map[*ssa.Function]bool {
 		}
 	}
 	return mustConsume
+}
+
+// dnfAtZero evaluates a predicate summary (atoms over $0) at $0 == 0: 1 true, 0 false, -1 unknown.
+func dnfAtZero(cs []conj) int {
+	lit := func(l string) int {
+		a := l[1:]
+		v := -1
+		num := func(s string) (int64, bool) {
+			n, err := strconv.ParseInt(s, 10, 64)
+			return n, err == nil
+		}
+		switch {
+		case strings.HasPrefix(a, "($0 == ") && strings.HasSuffix(a, ")"):
+			if k, ok := num(a[7 : len(a)-1]); ok {
+				v = b2i(k == 0)
+			}
+		case strings.HasPrefix(a, "($0 <= ") && strings.HasSuffix(a, ")"):
+			if k, ok := num(a[7 : len(a)-1]); ok {
+				v = b2i(0 <= k)
+			}
+		case strings.HasPrefix(a, "($0 < ") && strings.HasSuffix(a, ")"):
+			if k, ok := num(a[6 : len(a)-1]); ok {
+				v = b2i(0 < k)
+			}
+		case strings.HasSuffix(a, " <= $0)") && strings.HasPrefix(a, "("):
+			if k, ok := num(a[1 : len(a)-7]); ok {
+				v = b2i(k <= 0)
+			}
+		case strings.HasSuffix(a, " < $0)") && strings.HasPrefix(a, "("):
+			if k, ok := num(a[1 : len(a)-6]); ok {
+				v = b2i(k < 0)
+			}
+		case a == "unicode.IsLetter($0)" || a == "unicode.IsDigit($0)" || a == "unicode.IsSpace($0)":
+			v = 0
+		}
+		if v >= 0 && l[0] == '-' {
+			v = 1 - v
+		}
+		return v
+	}
+	res := 0
+	for _, cj := range cs {
+		cv := 1
+		for _, l := range cj {
+			switch lit(l) {
+			case 0:
+				cv = 0
+			case -1:
+				if cv == 1 {
+					cv = -1
+				}
+			}
+			if cv == 0 {
+				break
+			}
+		}
+		if cv == 1 {
+			return 1
+		}
+		if cv == -1 {
+			res = -1
+		}
+	}
+	return res
+}
+
+func b2i(b bool) int {
+	if b {
+		return 1
+	}
+	return 0
+}
+
+// lexerPositionSlice: input[a:b] in the lexer where a and b are values of l.position (or
+// l.readPosition), a read before b. The lemma behind it — position <= readPosition <= len(input)
+// and both only ever grow — holds because readChar is the only function that stores them
+// (checked here) and stores position = old readPosition, readPosition = old + width with
+// width 0 at end of input and the decoded size inside it (checked by C19.b).
+func lexerPositionSlice(c *Ctx, fn *ssa.Function, x, lo, hi ssa.Value) bool {
+	if c.W.PkgShort(fn) != "lexer" || lo == nil || hi == nil || c.term(fn, x) != "$0.input" {
+		return false
+	}
+	posLoad := func(v ssa.Value) *ssa.UnOp {
+		ld, ok := v.(*ssa.UnOp)
+		if !ok || ld.Op != token.MUL {
+			return nil
+		}
+		fa, ok := ld.X.(*ssa.FieldAddr)
+		if !ok || paramIndex(fn, fa.X) != 0 {
+			return nil
+		}
+		if f := fieldName(fa.X.Type(), fa.Field); f != "position" && f != "readPosition" {
+			return nil
+		}
+		return ld
+	}
+	a, b := posLoad(lo), posLoad(hi)
+	if a == nil || b == nil || !(a == b || instrDominates(a, b)) {
+		return false
+	}
+	// a position read as the upper bound must not be older than... (it is read later: fine);
+	// mixing the two counters is fine only as position (lower) .. readPosition (upper)
+	fa, fb := a.X.(*ssa.FieldAddr), b.X.(*ssa.FieldAddr)
+	if fieldName(fa.X.Type(), fa.Field) == "readPosition" && fieldName(fb.X.Type(), fb.Field) == "position" {
+		return false
+	}
+	// single writer
+	rc := c.W.Method("lexer", "Lexer", "readChar")
+	if rc == nil {
+		return false
+	}
+	for _, f := range c.W.FuncsOf("lexer") {
+		if f == rc || isTestFunc(c.W, f) {
+			continue
+		}
+		bad := false
+		instrs(f, func(in ssa.Instruction) {
+			st, ok := in.(*ssa.Store)
+			if !ok {
+				return
+			}
+			if _, t, fld, ok := fieldAddrOf(st.Addr); ok && typeIs(t, "lexer", "Lexer") && (fld == "position" || fld == "readPosition" || fld == "input") {
+				// the constructor initialises a fresh lexer
+				if _, fresh := rootValue(st.Addr).(*ssa.Alloc); !fresh {
+					bad = true
+				}
+			}
+		})
+		if bad {
+			return false
+		}
+	}
+	return true
 }
